@@ -128,6 +128,8 @@ def one(ctx):
     # error not swallowed: from the Err arm no Ok(..) return value is built
     oks = [bb for bb in b.live_blocks() for s in b.blocks[bb]["s"] if s[0] == "A" and s[2][0] == "agg" and isinstance(s[2][1], dict) and s[2][1].get("variant") == "Ok" and s[1] == [0]]
     errs_r = [bb for bb in b.live_blocks() for s in b.blocks[bb]["s"] if s[0] == "A" and s[2][0] == "agg" and isinstance(s[2][1], dict) and s[2][1].get("variant") == "Err" and s[1] == [0]]
+    # `?` returns the error through FromResidual::from_residual(..) written to the return place
+    errs_r += [x.bb for x in b.calls if x.f == "core::ops::try_trait::FromResidual::from_residual" and x.dest == [0]]
     sw = [x for x in flow.variant_edges(b, [c.dest[0]])]
     # the result goes through map_err first; match is on the mapped value
     tainted, sinks = flow.taint(b, [c.dest[0]])
